@@ -1802,7 +1802,15 @@ def gen_termlist(repo) -> Tuple[str, List[str]]:
         if fuelled:
             w.static[name] = (tl_name(name), mon, params, rty, True)     # visible to itself
         try:
-            body = fn.translate(params)
+            try:
+                body = fn.translate(params)
+            except Unsupported:
+                f2 = P.fallback_normalise(f)
+                if f2 is None:
+                    raise
+                lits[:] = []
+                fn = TLFn(w, f2, mon, rty, assumptions, lits, fuel=fuelled)
+                body = fn.translate(params)
         except Unsupported as ex:
             if not mon or fuelled:
                 raise
